@@ -447,11 +447,12 @@ Definition pool_clean (s : state) : Prop := Forall (fun kv => snd kv = ([], []))
 
 Lemma step_pool_clean r s o : pool_clean s -> pool_clean (fst (step r s o)).
 Proof.
-  unfold pool_clean. intros H. destruct o as [obj outl now order|obj now addr err|a|now a rt|a]; cbn.
+  unfold pool_clean. intros H. destruct o as [obj outl now order|obj now addr err|a|now a rt|a|]; cbn.
   - destruct outl; cbn; apply Forall_adel; exact H.
   - destruct (alookup obj (live s)) as [c|]; cbn; [|exact H].
     apply Forall_aset; [reflexivity|].
     destruct (c_outlier c && (0 <? addr))%bool; cbn; exact H.
+  - exact H.
   - exact H.
   - exact H.
   - exact H.
@@ -514,7 +515,7 @@ Definition not_fire (a : Z) (o : op) : Prop := match o with Fire x => x <> a | _
 Lemma step_keeps_scheduled r s o a :
   not_fire a o -> alookup a (rstatus s) <> None -> alookup a (rstatus (fst (step r s o))) <> None.
 Proof.
-  intros Hnf H. destruct o as [obj outl now order|obj now addr err|x|now x rt|x]; cbn.
+  intros Hnf H. destruct o as [obj outl now order|obj now addr err|x|now x rt|x|]; cbn.
   - destruct outl; cbn; [|exact H].
     destruct (a_outl (check_all r now (nodes s) order)); [exact H|].
     destruct (alookup a (rstatus s)) as [v|] eqn:E; [|congruence].
@@ -524,6 +525,7 @@ Proof.
     destruct err; [exact H|]. apply r_recover_keeps. exact H.
   - cbn in Hnf. rewrite alookup_adel_other by (intro; apply Hnf; congruence). exact H.
   - apply r_recover_keeps. exact H.
+  - exact H.
   - exact H.
 Qed.
 
@@ -535,7 +537,7 @@ Lemma step_keeps_recovered r s o a :
   not_fire a o -> recovered a s -> recovered a (fst (step r s o)).
 Proof.
   intros Hnf [Hs Hn]. unfold recovered.
-  destruct o as [obj outl now order|obj now addr err|x|now x rt|x]; cbn.
+  destruct o as [obj outl now order|obj now addr err|x|now x rt|x|]; cbn.
   - destruct outl; cbn; [|split; assumption]. split.
     + destruct (a_outl (check_all r now (nodes s) order)); [exact Hs|].
       apply r_schedule_keeps. exact Hs.
@@ -551,6 +553,7 @@ Proof.
   - split.
     + apply r_recover_true. exact Hs.
     + destruct (alookup x (nodes s)); [apply alookup_aset_present|]; exact Hn.
+  - split; assumption.
   - split; assumption.
 Qed.
 
@@ -606,4 +609,24 @@ Proof.
   apply (success_recovers r s1 obj now a c); try assumption.
   subst s1.
   apply (exec_keeps (fun s => alookup a (rstatus s) <> None) r a mid1 (fun s o => step_keeps_scheduled r s o a)); assumption.
+Qed.
+
+(* the same across rule reloads that keep the circuit-breaker part (op Reload): a reload anywhere
+   between the scheduling and the timer - before or after the successful completion - changes
+   nothing, the recovered node keeps its breaker *)
+Lemma reload_id r s : step r s Reload = (s, ONone).
+Proof. reflexivity. Qed.
+
+Lemma success_not_recycled_across_reload r s0 a pre post obj now c mid2a mid2b :
+  alookup a (rstatus s0) <> None ->
+  Forall (not_fire a) pre -> Forall (not_fire a) post ->
+  Forall (not_fire a) mid2a -> Forall (not_fire a) mid2b ->
+  let s1 := exec r s0 (pre ++ Reload :: post) in
+  alookup obj (live s1) = Some c -> c_outlier c = true -> 0 < a ->
+  let s2 := exec r (fst (step r s1 (Exit obj now a false))) (mid2a ++ Reload :: mid2b) in
+  nodes (fst (step r s2 (Fire a))) = nodes s2 /\
+  alookup a (nodes (fst (step r s2 (Fire a)))) <> None.
+Proof.
+  intros Hs H1 H2 H3 H4. apply success_not_recycled; try assumption;
+    apply Forall_app; split; try assumption; constructor; try assumption; exact I.
 Qed.
